@@ -52,7 +52,7 @@ CLAIMED = {
              "code is only called on the kinds of value it was admitted for, so the per-node memo does not make a later evaluation depend "
              "on what the variables held earlier (structural obligation shared with C05).",
         note="Partial: history-independence of the parse/compile caches (a relation between runs) and arity fields written on operator "
-             "nodes during parsing are NOT decided. Literal dictionaries: C10's obligations; cache clearing on rebinding: C05/C09's. "
+             "nodes during parsing are NOT decided. Literal dictionaries: C10's obligations; validity of compiled code after a rebinding: C05/C09's (call-time guard). "
              "Assumed: NumPy/builtin allocation contracts tabulated in pyvc/frames.py; unknown callees do not write their arguments. "
              "A typing failure has no solver model: the replay is a fixed battery on the real verb tables (bounded).",
         ref="DESIGN.md section 4 C04",
@@ -62,13 +62,14 @@ CLAIMED = {
         text="Mechanism contracts of the expression compiler: for every IR production the source template emitted by the real "
              "_ir_to_source of both backends, parsed by CPython's ast, is the expected expression for THAT operator with operands in "
              "place; every IR the real _ast_to_ir can produce is mapped by both backends or is a documented miss that falls back to "
-             "the interpreter; __setitem__/__delitem__ leave _compiled_cache empty; at all three call sites an exception while "
+             "the interpreter; at all three call sites an exception while "
              "fetching arguments or running compiled code leads to the interpreter path only. Positional agreement of parameters: "
              "bounded (IR depth <= 3), labelled. Value level (numpy backend): every template denotes the value of the interpreter's verb "
              "for that operator on every admitted operand - the template and the verb's decision list (pre-guards, shortcut with its "
              "guards, generic fold) are read from the real source and compared as terms modulo seven declared NumPy/Python identities; "
-             "scalar variables are admitted by exact type only; the Define verb rebinds through __setitem__ (cache cleared); every call of "
-             "compiled code is guarded by the same admission test on the actual arguments (structural obligation on the three call sites); "
+             "every call of compiled code is guarded by the admission test (exact int / float, ndarray) on the actual arguments (structural "
+             "obligation on the three call sites and on the guard's body); while that guard is established it discharges the compile-time "
+             "mechanisms (admission by exact type, Define through __setitem__, caches emptied on rebinding), which are otherwise required; "
              "compile-sequences (bounded, labelled): same-shape expressions with the variables in different orders, in one interpreter.",
         note="Not decided: comparisons on object arrays ((l==r)*1 vs vec_fn2/safe_equal), the torch backend's values (torch is not "
              "installed), integer overflow (compiled code computes with Python integers, the interpreter with int64). Assumed: the "
@@ -106,7 +107,7 @@ CLAIMED = {
         ref="DESIGN.md section 4 C03, Appendix A.4",
         technique=TECH + "; merge_projections: exhaustive enumeration over the language's finite domain (bounded stand-in)"),
     'C09': dict(
-        text="klong[k]=v / klong[k] / del klong[k] through the context-assignment contract (wrap on both paths, cache cleared, "
+        text="klong[k]=v / klong[k] / del klong[k] through the context-assignment contract (wrap on both paths; compiled cache cleared unless every call of compiled code is guarded, "
              "functions read back as KGFnWrapper bound to the name); KGLambda collects the first n reserved symbols (positional) and "
              "calls the Python callable exactly once with exactly the frame values in order, klong first when requested, returning its "
              "result; KGFnWrapper.__call__ rejects a wrong argument count before any evaluation, uses the current definition when it is "
